@@ -124,9 +124,11 @@ PROPS = {
         "tests": [
             {"name": "TestC18", "quick": 16000, "thorough": 240000, "levels": "one", "shards": {"quick": 12, "thorough": 16}},
             {"name": "TestC18W", "quick": 2000, "thorough": 30000, "same_seed": True, "transcript": True, "shards": {"quick": 2, "thorough": 4}},
+            {"name": "TestC18Enc", "quick": 6000, "thorough": 80000, "shards": {"quick": 1, "thorough": 3}},
         ],
         "rule": "reader half (in one process, level switched at run time through the verif hook): inputs = valid streams, valid streams cut short, malformed streams with injected faults and >=600-byte tails, mutated streams, random bytes x Read sizes x source chunkings; for every runnable level a fresh Reader decodes the input; oracle: identical bytes and identical outcome kind (EOF / unexpected EOF / corrupt) across levels, and each run satisfies C03's reference-inflater oracle. "
                 "writer half (one process per level, same rapid seed): identical workload lists (data, flate/gzip/zlib setting, Write/Flush/Close ops, optional failing destination); each process checks what it emitted (flushed prefixes decode to the data so far, closed stream is a valid container) and records per-call error flags and decode digests; the driver requires the transcripts of all levels to be identical (compressed bytes are deliberately not compared). "
+                "token-encoder stress (one process per level): inputs made of short copies from 2..32 KiB back separated by 0..3 literals, so that most tokens are 25..31 bits long - the range around the vector token encoders' per-level fast-path limits; oracle: the output round-trips through compress/flate. "
                 "Non-trivial (reader) = input has a Huffman block with >24 bytes of compressed data, i.e. the AVX2 loop is eligible, and >=2 levels ran; (writer) = non-empty data.",
         "assumptions": COMMON_ASSUME + ["the run-time level switch is faithful for Readers because the decode dispatch re-reads the level on every call; Writers cache their encoder at init and are therefore run one process per level"],
     },
